@@ -12,6 +12,7 @@ import (
 	"path"
 	"path/filepath"
 	"strings"
+	"syscall"
 
 	"github.com/emersion/go-webdav/internal"
 )
@@ -72,7 +73,9 @@ func errFromOS(err error) error {
 		err = fmt.Errorf("%s: %w", perr.Op, perr.Err)
 	}
 
-	if errors.Is(err, fs.ErrNotExist) {
+	if errors.Is(err, fs.ErrNotExist) || errors.Is(err, syscall.ENOTDIR) {
+		// ENOTDIR: a parent of the resource is not a collection, so the
+		// resource doesn't exist
 		return NewHTTPError(http.StatusNotFound, err)
 	} else if errors.Is(err, fs.ErrPermission) {
 		return NewHTTPError(http.StatusForbidden, err)
